@@ -248,6 +248,30 @@ func guardSource(info *types.Info, fi *FuncInfo, cond ast.Expr, at token.Pos) st
 				}
 				if fn := calleeOf(info, x); fn != nil {
 					add(fn.Name() + "()")
+					// a package-local predicate: what it looks at counts as part of the guard
+					if fn.Pkg() != nil && fi.Pkg.Types == fn.Pkg() {
+						for _, f := range fi.Pkg.Syntax {
+							for _, d := range f.Decls {
+								fd, ok := d.(*ast.FuncDecl)
+								if !ok || fd.Body == nil || fi.Pkg.TypesInfo.Defs[fd.Name] != types.Object(fn) {
+									continue
+								}
+								ast.Inspect(fd.Body, func(q ast.Node) bool {
+									switch y := q.(type) {
+									case *ast.SelectorExpr:
+										if _, isField := fi.Pkg.TypesInfo.Selections[y]; isField {
+											add("." + y.Sel.Name)
+										}
+									case *ast.CompositeLit:
+										if y.Type != nil {
+											add(types.ExprString(y.Type) + "{}")
+										}
+									}
+									return true
+								})
+							}
+						}
+					}
 				}
 			case *ast.SelectorExpr:
 				if p := exprPath(info, x); p != "" {
